@@ -150,6 +150,9 @@ class LocalQueueCandidates:
             if new_current_instances_inds:
                 for ind in new_current_instances_inds:
                     self.add_new_tracks([current_instances[ind]])
+        elif row_inds is not None:
+            # nothing could be matched (every score is NaN): all detections are unmatched
+            self.add_new_tracks(current_instances)
 
         return current_instances
 
